@@ -48,7 +48,9 @@ let expected (pages : (int * int) list list) (a : int) (b : int) : string =
           "del", c_list (List.map (fun (m, id, po) -> Printf.sprintf "{po=%d,raw=%d,data=%s}" po (rawlen (m, id)) (row_s (m, id))) dl);
           "del_noschema", c_list (List.map (fun (m, id, po) -> Printf.sprintf "{po=%d,raw=%d,data=mnil}" po (rawlen (m, id))) dl);
           "rwd_v", c_list (List.map (fun (m, id, _) -> row_s (m, id)) lv); "rwd_d", c_list (List.map (fun (m, id, _) -> row_s (m, id)) dl);
-          "range_incl", idpo (rel inr); "range_excl", idpo (rel inr_l) ]
+          "range_incl", idpo (rel inr); "range_excl", idpo (rel inr_l);
+          (* no range at all (nil *BlockRange = the whole file): the switch must be forwarded on that path too (seeded change C09-5) *)
+          "range_nil_incl", idpo (p3 all); "range_nil_excl", idpo (p3 lv) ]
 
 let id_of (e : tupleEntry) : int * int =
   let d = e.e_tuple.t_data.vis in
@@ -68,7 +70,9 @@ let model (file : byte list) (a : int) (b : int) : string =
           "del", del cols3; "del_noschema", del [];
           "rwd_v", m_rows (match rwd with Ok (v, _) -> Ok v | Panic -> Panic); "rwd_d", m_rows (match rwd with Ok (_, d) -> Ok d | Panic -> Panic);
           "range_incl", (match readTuplesInRange (Some range) true with Some x -> m_entries x | None -> "err");
-          "range_excl", (match readTuplesInRange (Some range) false with Some x -> m_entries x | None -> "err") ]
+          "range_excl", (match readTuplesInRange (Some range) false with Some x -> m_entries x | None -> "err");
+          "range_nil_incl", (match readTuplesInRange (Some s) true with Some x -> m_entries x | None -> "err");
+          "range_nil_excl", (match readTuplesInRange (Some s) false with Some x -> m_entries x | None -> "err") ]
 
 let run ~tag r (pages : (int * int) list list) =
   let np = List.length pages in
